@@ -28,6 +28,43 @@ NULL_TOLERATED = {
 # the descriptor allocator probes the registry for a *free* value: a null look-up result is its success case (see R14a)
 LOOKUP_PROBES = {'@liberasurecode_backend_alloc_desc'}
 
+def rule_lookups(ctx, P, r):
+    NC = nullcheck.NullCheck(P)
+    P.fn(LOOKUP)
+    # the public look-up and any helper it merely wraps
+    lookups = {LOOKUP}
+    lf = P.fn(LOOKUP)
+    for i in lf.insts():
+        if i.op == 'call' and i.callee in P.fns and i.res:
+            rets = [x for x in lf.insts() if x.op == 'ret']
+            if rets and rets[0].ops and rets[0].ops[0] == i.res:
+                lookups.add(i.callee)
+    for f in P.fns.values():
+        for ins in f.insts():
+            if ins.op == 'call' and ins.callee in lookups and ins.res and f.name not in LOOKUP_PROBES and f.name not in lookups:
+                bad, nsites = NC.unchecked(f, [ins.res])
+                inst = f'{f.name}: look-up at line {ins.line}'
+                if bad:
+                    b0, how = bad[0]
+                    r.fail(inst, func=f.name, sig='look-up result used unchecked', loc=b0.loc,
+                           msg=f'result of the descriptor look-up is dereferenced without a dominating null test ({how})')
+                    continue
+                A, _ = derived_pointers(f, [ins.res])
+                ne = nullcheck.null_edges(f, A)
+                if nsites and not ne:
+                    r.fail(inst, func=f.name, sig='look-up result never tested', loc=ins.loc, msg='no null test on the look-up result')
+                    continue
+                okret = True
+                for (s, d) in ne:
+                    vals = returns_via_edge(f, s, d)
+                    want_neg = f.name != '@is_invalid_fragment'
+                    if not (all_negative(vals) if want_neg else all_nonzero_const(vals)):
+                        okret = False
+                        r.fail(inst, func=f.name, sig='unknown descriptor not refused', loc=s.insts[-1].loc,
+                               msg=f'on the unknown-descriptor edge the function may return {sorted(map(str, vals))}')
+                if okret:
+                    r.ok(inst, func=f.name, loc=ins.loc, facts={'deref_sites': nsites})
+
 def run(ctx):
     P = ctx.program()
     cg = callgraph.get(P)
@@ -76,40 +113,7 @@ def run(ctx):
     # ---------------- R13b
     r = ctx.rule('R13b', 'descriptor look-up result is null-tested before use; unknown descriptor => error',
                  'a destroyed/unknown descriptor must be refused by every entry point')
-    P.fn(LOOKUP)
-    # the public look-up and any helper it merely wraps
-    lookups = {LOOKUP}
-    lf = P.fn(LOOKUP)
-    for i in lf.insts():
-        if i.op == 'call' and i.callee in P.fns and i.res:
-            rets = [x for x in lf.insts() if x.op == 'ret']
-            if rets and rets[0].ops and rets[0].ops[0] == i.res:
-                lookups.add(i.callee)
-    for f in P.fns.values():
-        for ins in f.insts():
-            if ins.op == 'call' and ins.callee in lookups and ins.res and f.name not in LOOKUP_PROBES and f.name not in lookups:
-                bad, nsites = NC.unchecked(f, [ins.res])
-                inst = f'{f.name}: look-up at line {ins.line}'
-                if bad:
-                    b0, how = bad[0]
-                    r.fail(inst, func=f.name, sig='look-up result used unchecked', loc=b0.loc,
-                           msg=f'result of the descriptor look-up is dereferenced without a dominating null test ({how})')
-                    continue
-                A, _ = derived_pointers(f, [ins.res])
-                ne = nullcheck.null_edges(f, A)
-                if nsites and not ne:
-                    r.fail(inst, func=f.name, sig='look-up result never tested', loc=ins.loc, msg='no null test on the look-up result')
-                    continue
-                okret = True
-                for (s, d) in ne:
-                    vals = returns_via_edge(f, s, d)
-                    want_neg = f.name != '@is_invalid_fragment'
-                    if not (all_negative(vals) if want_neg else all_nonzero_const(vals)):
-                        okret = False
-                        r.fail(inst, func=f.name, sig='unknown descriptor not refused', loc=s.insts[-1].loc,
-                               msg=f'on the unknown-descriptor edge the function may return {sorted(map(str, vals))}')
-                if okret:
-                    r.ok(inst, func=f.name, loc=ins.loc, facts={'deref_sites': nsites})
+    rule_lookups(ctx, P, r)
     r.require_min(11, 'descriptor look-ups')
 
     # ---------------- R13c ranges
